@@ -21,9 +21,13 @@ structure RCfg where
   dbMap : List (Int × Int) := []
   /-- `time.Now()` in milliseconds at replay time -/
   now : Nat := 0
-  /-- DB black list of the output filter -/
-  dbBlack : List Int := []
-  deriving Repr, Inhabited
+  /-- the output filter's decisions, as parameters (like `Sender.PCfg`): `filterDb db` =
+      `outFilter.FilterDb` (DB black list), `filterKey key` = `outFilter.FilterKey(key) ||
+      outFilter.FilterSlot(key)` (reserved prefixes `redis-gunyu-checkpoint*` / `/redis-gunyu*`,
+      configured prefix black/white lists, slot black/white lists). `true` = filtered out. -/
+  filterDb : Int → Bool := fun _ => false
+  filterKey : Bytes → Bool := fun _ => false
+  deriving Inhabited
 
 /-- TTL handed to RESTORE / PEXPIRE: remaining milliseconds, `1` when the
     absolute expiry is already past, `0` = no expiry -/
@@ -93,11 +97,15 @@ structure Worker where
 
 /-- the body of `rdbReplay`'s loop for one entry on worker `w` -/
 def workerStep (cfg : RCfg) (w : Worker) (ex : Exists) (e : Entry) : Worker × Exists × Bool :=
-  if e.db ≠ -1 ∧ cfg.dbBlack.contains e.db then (w, ex, true) else
+  -- a black-listed DB: nothing is sent, not even SELECT (`FilterDb(-1)` is false)
+  if e.db ≠ -1 ∧ cfg.filterDb e.db then (w, ex, true) else
+  -- the connection follows the entry's DB BEFORE the key/slot filter is asked, so that the
+  -- recorded current DB and the connection's DB never part
   let w1 : Worker :=
     if e.db = -1 then w else
     let t := mapDb cfg e.db
     if t ≠ w.cur then { cur := t, log := w.log ++ [cmdB b!"select" [intToDec t]] } else w
+  if cfg.filterKey e.key then (w1, ex, true) else
   let (cs, ex', ok) := replayEntry cfg w1.cur ex e
   ({ w1 with log := w1.log ++ cs }, ex', ok)
 
